@@ -49,6 +49,28 @@ def mag(p):
             one = B(1)
             return z3.And(k >= B(0), k <= B(nbc + 3), z3.ULE(zt(na), one << k), z3.Or(k < B(3), z3.UGT(zt(na), one << (k - B(3)))))
         return finish(ob, ob.prove(outs, good))
+    if kind == 'mpq':
+        # exact rational P/Q with symbolic numerator and denominator: |P| <= Q * 2**m and |P| > Q * 2**(m-3)
+        from mpmath import rational
+        pbc, qbc = p['pbc'], p['qbc']
+        ob = Ob(wbump(p, pbc + qbc + 80), timeout_s=p.get('_t', 60), mul_precise_bits=4096)
+        Pa = ob.int('P_abs', 1 << (pbc - 1), (1 << pbc) - 1) if pbc > 1 else 1
+        Pn = ob.bit('P_neg')
+        P = V.merge(zt(Pn) == B(1), V.neg(Pa), Pa)
+        Q = ob.int('Q', 1 << (qbc - 1), (1 << qbc) - 1) if qbc > 1 else 1
+        xq = object.__new__(rational.mpq)
+        xq._mpq_ = (P, Q)
+        outs = ob.run(mp.mag, [xq])
+        S = qbc + 4                     # common shift that makes every exponent below non-negative
+
+        def goodq(val, st):
+            if not isinstance(val, (SInt, int)):
+                return False
+            k = zt(val)
+            rng = z3.And(k >= B(-(qbc + 1)), k <= B(pbc + 3))
+            lhs = zt(Pa) << B(S)                           # |P| * 2**S
+            return z3.And(rng, z3.ULE(lhs, zt(Q) << (k + B(S))), z3.UGT(lhs, zt(Q) << (k + B(S - 3))))
+        return finish(ob, ob.prove(outs, goodq))
     # complex: |z|^2 = re^2 + im^2 <= 4^m  and  > 4^(m-3)
     rbc, ibc, off = p['rbc'], p['ibc'], p['off']
     top = max(rbc + max(off, 0), ibc + max(-off, 0))
@@ -86,6 +108,15 @@ def mag_concrete(p, m):
             n = -na if p.get('neg') else na
             r = mp.mag(n)
             v2, sh = Fraction(n) ** 2, 0
+        elif kind == 'mpq':
+            from mpmath import rational
+            Pa = 1 if p['pbc'] == 1 else m['P_abs']
+            Pv = -Pa if m.get('P_neg') else Pa
+            Qv = 1 if p['qbc'] == 1 else m['Q']
+            xq = object.__new__(rational.mpq)
+            xq._mpq_ = (Pv, Qv)
+            r = mp.mag(xq)
+            v2, sh = Fraction(Pv, Qv) ** 2, 0
         else:
             im = mk_tuple(m, 'im', p['ibc'])
             re = mk_tuple(m, 're', p['rbc'], exp=im[2] + p['off'])
